@@ -14,7 +14,9 @@ RULE = ("AKAI: volumes of 2-5 sample files (distinct, non-pairing names, short P
         "and `export` of the damaged image are compared with the undamaged image on every OTHER item (name, type, exported bytes). The end-of-table mark "
         "(bytes 8-9 = 47 D7) and a damaged name that collides or L/R-pairs with a sibling are format-/design-inherent and listed as known findings. A "
         "sample of damaged images is also run through the Coq whole-image model. Roland: one sample's directory or parameter record damaged byte-wise "
-        "and field-wise (when the S-7xx writer is present). Non-trivial = damage that changes the parsed entry; distinct = distinct (volume, k, offset, bytes)")
+        "and field-wise (when the S-7xx writer is present); every such image (and a tree with shared partials, repeated / dangling references, empty "
+        "slots) also goes through the extracted record model (coq/RolandEntries.v): parsed fields or exception of every reference, record addresses, "
+        "surviving entries with cluster lists, listed names, truncated streams, whole images at the format's addresses. Non-trivial = damage that changes the parsed entry; distinct = distinct (volume, k, offset, bytes)")
 
 SECTOR = 8192
 
@@ -146,12 +148,20 @@ def w_roland(pid, tier, seed, job):
     return ctx.dump()
 
 
+def w_any(pid, tier, seed, job):
+    """one pool for both formats (the Roland jobs are the longer ones: they go first)"""
+    kind, n = job
+    return w_roland(pid, tier, seed, n) if kind == "roland" else w_volume(pid, tier, seed, n)
+
+
 def run(ctx):
-    F.pmap(ctx, w_volume, [ctx.seed * 7 + i for i in range(10 if ctx.quick else 64)])
+    jobs = []
     if os.path.exists(os.path.join(os.path.dirname(os.path.dirname(os.path.abspath(__file__))), "roland_damage.py")):
-        F.pmap(ctx, w_roland, [ctx.seed * 13 + i for i in range(8 if ctx.quick else 48)])
+        jobs += [("roland", ctx.seed * 13 + i) for i in range(8 if ctx.quick else 48)]
     else:
         ctx.note("Roland S-7xx records: not exercised in this run (harness/roland_damage.py absent)")
+    jobs += [("akai", ctx.seed * 7 + i) for i in range(10 if ctx.quick else 64)]
+    F.pmap(ctx, w_any, jobs)
 
 
 def replay(ctx, case):
